@@ -176,18 +176,18 @@ class Ctx:
         s, _ = self.sym(body)
         return sorted(sym.atom_str(e, v, s) for e, v in cs)
 
-    def pc_strs(self, body, blk):
+    def pc_strs(self, body, blk, own=False):
         """Path condition of block as a list of disjuncts, each a set of atom strings.  A private
         helper with a single call site that hands its own parameters on unchanged (an extracted
         method) also stands under the path condition of that call site."""
         s, pc = self.sym(body)
-        own = [set(sym.atom_str(e, v, s) for e, v in cs) for cs in pc.conditions(blk)]
-        outer = self._caller_conditions(body)
+        own_ = [set(sym.atom_str(e, v, s) for e, v in cs) for cs in pc.conditions(blk)]
+        outer = None if own else self._caller_conditions(body)
         if not outer:
-            return own
+            return own_
         out = []
         for o in outer:
-            for d in own:
+            for d in own_:
                 both = o | d
                 # contradictory boolean atoms => infeasible combination
                 if any(a.endswith("=True") and (a[:-4] + "False") in both for a in both):
@@ -202,6 +202,10 @@ class Ctx:
         if key in cache:
             return cache[key]
         cache[key] = None
+        if body.kind == "Closure":
+            res = self._closure_conditions(body)
+            cache[key] = res
+            return res
         if depth > 2 or body.kind not in ("Fn", "AssocFn") or not str(body.raw.get("vis", "")).startswith("Restricted"):
             return None
         sites = []
@@ -225,6 +229,48 @@ class Ctx:
         res = [set(d) for d in res if d] or None
         cache[key] = res
         return res
+
+    # closure handed to a lazy combinator: the closure body runs only in one state of the receiver
+    LAZY = [
+        (r"^core::option::Option::<T>::(unwrap_or_else|or_else|ok_or_else|get_or_insert_with)$", 1, "is_some(%s)=False"),
+        (r"^core::option::Option::<T>::(map_or_else)$", 1, "is_some(%s)=False"),
+        (r"^core::option::Option::<T>::(map_or_else)$", 2, "is_some(%s)=True"),
+        (r"^core::option::Option::<T>::(map|and_then|filter|is_some_and|inspect|map_or)$", -1, "is_some(%s)=True"),
+        (r"^core::result::Result::<T, E>::(map_err|or_else|unwrap_or_else|inspect_err)$", 1, "discr(%s)=Err"),
+        (r"^core::result::Result::<T, E>::(map_or_else)$", 1, "discr(%s)=Err"),
+        (r"^core::result::Result::<T, E>::(map_or_else)$", 2, "discr(%s)=Ok"),
+        (r"^core::result::Result::<T, E>::(map|and_then|inspect|is_ok_and|map_or)$", -1, "discr(%s)=Ok"),
+    ]
+
+    def _closure_conditions(self, body):
+        """Conditions under which a closure body runs: the path condition of the place that builds
+        it, plus – when it is handed straight to a lazy Option/Result combinator – the state of
+        the receiver in which that combinator calls it."""
+        parent = None
+        for c in self.all_bodies(body.crate):
+            if c.key != body.key and body.key in self.closure_sites(c):
+                parent = c
+                break
+        if parent is None:
+            return None
+        blk = self.closure_sites(parent)[body.key]
+        local = None
+        for b2, i, st in parent.stmts():
+            if b2 == blk and st["k"] == "assign" and st["r"]["k"] == "aggregate" and st["r"].get("closure") == body.key:
+                local = st["p"]["local"]
+        res = [set(d) for d in self.pc_strs(parent, blk)]
+        t = parent.term(blk)
+        if t and t.get("k") == "call" and local is not None:
+            callee = mir.callee_of(t) or ""
+            for rx, pos, fmt in self.LAZY:
+                if not re.search(rx, callee):
+                    continue
+                args = t["args"]
+                idx = pos if pos >= 0 else len(args) - 1
+                if idx < len(args) and args[idx].get("p", {}).get("local") == local and not args[idx]["p"].get("proj"):
+                    atom = fmt % self.expr(parent, args[0])
+                    res = [d | {atom} for d in (res or [set()])]
+        return [d for d in res if d] or None
 
     @staticmethod
     def _sat(disjunct, pattern):
@@ -493,9 +539,9 @@ class Ctx:
         for blk, t in self.find_calls(body, callee_rx):
             if blk in loops:
                 src = [self.expr(body, t2["args"][0]) for _, t2 in nexts]
-                hits.append(dict(owner=body, t=t, form="loop", source=src[0] if src else ""))
+                hits.append(dict(owner=body, t=t, blk=blk, form="loop", source=src[0] if src else ""))
         for c in self.closures_of(body):
-            inner = [(c2, t) for c2 in [c] + self._closures_deep(c) for _, t in self.find_calls(c2, callee_rx)]
+            inner = [(c2, t, b_) for c2 in [c] + self._closures_deep(c) for b_, t in self.find_calls(c2, callee_rx)]
             if not inner:
                 continue
             src = ""
@@ -505,8 +551,8 @@ class Ctx:
                 if self.ADAPTERS.search(nm) and any(c.key in self.expr(body, a) for a in t2["args"][1:]):
                     src = self.expr(body, t2["args"][0])
                     form = "adapter"
-            for c2, t in inner:
-                hits.append(dict(owner=c2, t=t, form=form, source=src))
+            for c2, t, b_ in inner:
+                hits.append(dict(owner=c2, t=t, blk=b_, form=form, source=src))
         return hits
 
     def _closures_deep(self, body):
